@@ -5,7 +5,14 @@ Constructive, no assume()/filter() on the hot path.  Every random choice goes th
 from hypothesis import strategies as st
 
 NAMES = ["x", "y", "z", "w"]
+SUBNAMES = ["t", "lat", "at", "la"]     # names that are substrings of one another / of a comma-joined group name
 WORDS = ["a", "b", "c", "d", "e", "f", "g", "h", "k", "m"]
+
+
+def names_pool():
+    """dimension names: usually x/y/z/w, sometimes names that are substrings of one another"""
+    from hypothesis import strategies as st
+    return st.integers(0, 7).map(lambda k: SUBNAMES if k == 0 else NAMES)
 
 
 def order_of(labels):
@@ -23,13 +30,15 @@ def order_of(labels):
 
 @st.composite
 def labels(draw, n, kind=None, order=None, kinds="ifs"):
-    """n unique labels of one kind: 'i' ints, 'f' dyadic floats (k/4), 's' short words"""
+    """n unique labels of one kind: 'i' ints, 'f' floats (mostly dyadic k/4, sometimes decimal k/10, which are neither exactly
+    representable nor float32-safe), 's' short words"""
     kind = kind or draw(st.sampled_from(list(kinds)))
     order = order or draw(st.sampled_from(["inc", "dec", "shuf"]))
     if kind == "i":
         vals = draw(st.lists(st.integers(-6, 14), min_size=n, max_size=n, unique=True))
     elif kind == "f":
-        vals = [k / 4.0 for k in draw(st.lists(st.integers(-12, 28), min_size=n, max_size=n, unique=True))]
+        ks = draw(st.lists(st.integers(-12, 28), min_size=n, max_size=n, unique=True))
+        vals = [k / 10.0 for k in ks] if draw(st.integers(0, 3)) == 0 else [k / 4.0 for k in ks]
     else:
         vals = draw(st.lists(st.sampled_from(WORDS), min_size=n, max_size=n, unique=True))
     if order == "inc":
@@ -42,7 +51,7 @@ def labels(draw, n, kind=None, order=None, kinds="ifs"):
 @st.composite
 def history(draw, labs_per_dim):
     """how the array came about (see core.build): a history must not change any answer"""
-    mode = draw(st.sampled_from(["none", "none", "none", "warm", "slice", "relabel", "transposed"]))
+    mode = draw(st.sampled_from(["none", "none", "none", "warm", "slice", "relabel", "transposed", "fortran", "copyof"]))
     h = {"mode": mode}
     if mode == "slice":
         front, back = [], []
@@ -67,7 +76,8 @@ def history(draw, labs_per_dim):
 def array_spec(draw, min_dims=0, max_dims=4, min_size=0, max_size=4, kinds="ifs", vks="fi", nan=False,
                names=None, dims=None, square=False, hist=True):
     """description of a DimArray (see core.build)"""
-    names = names or NAMES
+    if names is None:
+        names = SUBNAMES if draw(st.integers(0, 7)) == 0 else NAMES
     if dims is None:
         nd = draw(st.integers(min_dims, max_dims))
         dims = list(draw(st.permutations(names)))[:nd]
@@ -210,8 +220,13 @@ def member_labels(draw, pool, d, allow_empty=False, relations=None, mix_int_floa
     kind = pool[d]["kind"]
     rel, labs = draw(related_labels(pool[d]["labels"], kind, relation=draw(st.sampled_from(relations)) if relations else None,
                                     allow_empty=allow_empty))
-    if mix_int_float and kind == "i" and draw(st.integers(0, 5)) == 0:
-        labs = [float(x) for x in labs]
+    if mix_int_float and kind == "i":
+        mix = draw(st.integers(0, 9))
+        if mix == 0:
+            labs = [float(x) for x in labs]                                       # same labels, stored as floats
+        elif mix == 1:
+            frac = draw(st.sampled_from([0.5, 0.1, 0.7]))
+            labs = [x + frac if draw(st.booleans()) else float(x) for x in labs]  # float axis, some labels between the integers
     return labs
 
 
